@@ -22,6 +22,23 @@ def withArr (a : Option Arr) (f : Arr → String) : String :=
   | some a => if a.WF then f a else "panic"
   | none => "panic"
 
+/-- well-formedness except that a delta-min vector may end in 0 (all recorded distances
+zero): `number_arrivals(0)` returns 0 before the division by the last entry is reached -/
+partial def arrWF0 : Arr → Bool
+  | .never => true
+  | .periodic T => decide (1 ≤ T)
+  | .sporadic T _ => decide (1 ≤ T)
+  | .curve d => !d.isEmpty
+  | .xcurve d => !d.isEmpty
+  | .pfx h st => decide (prefixWF h st)
+  | .prop _ a => arrWF0 a
+  | .agg as => as.all arrWF0
+  | .sum a b => arrWF0 a && arrWF0 b
+
+/-- `number_arrivals(d)` with the early return for `d = 0` -/
+def naStr (a : Arr) (d : Nat) : String :=
+  if a.WF then toString (a.N d) else if d = 0 ∧ arrWF0 a then "0" else "panic"
+
 def withCost (c : Option Cost) (g : Cost → Bool) (f : Cost → String) : String :=
   match c with
   | some c => if g c then f c else "panic"
@@ -78,7 +95,7 @@ def evalOp : List String → Option String
   | "na" :: ts => do
     let (a, ts) ← pArr ts
     let (d, _) ← pNat ts
-    pure (withArr a fun a => toString (a.N d))
+    pure (match a with | some a => naStr a d | none => "panic")
   | "nas" :: ts => do
     let (a, ts) ← pArr ts
     let (lo, ts) ← pNat ts
